@@ -103,6 +103,14 @@ def predicate(case, stats):
         if node["kind"] == "Object":
             ns[node["name"]] = env[nid]
     fails = []
+    if case.get("use_first"):
+        # a sequence, not a single call: every node validates something before its repr is taken (whatever a
+        # validation leaves on the object must not become part of what `==` compares)
+        from vlib import observe
+
+        for nid in sorted(idx):
+            for value in ({}, [], "a", 1, None, {"a": 1}):
+                observe.verdict(env[nid], value)
     for nid, node in sorted(idx.items()):
         obj = env[nid]
         f = check_object(obj, node, ns)
@@ -145,5 +153,5 @@ replay_predicate = predicate
 
 
 def run_shard(ctx, stats):
-    strat = R.recipes(CFG).map(lambda r: {"recipe": r})
+    strat = st.tuples(R.recipes(CFG), st.booleans()).map(lambda t: {"recipe": t[0], "use_first": t[1]})
     return runner.hyp_run(ctx, stats, strat, predicate, BUDGET[ctx.tier])
